@@ -135,6 +135,7 @@ pub fn run(ctx: &mut Ctx) {
         }
     }
     ctx.exhaustive.insert("all ordered pairs of documents with <=3 nodes".into(), !ctx.miri);
+    let mon = super::routes::Monitor::new(&["contains"]);
     let n = ctx.budget(500_000, 10_000_000);
     for i in 0..n {
         if !ctx.next_case() {
@@ -153,6 +154,10 @@ pub fn run(ctx: &mut Ctx) {
         check_pair(ctx, &a, &b);
         check_pair(ctx, &b, &c);
         check_pair(ctx, &a, &c);
+        if i % 4 == 1 && a.nodes() < 300 {
+            let args = super::routes::plain_args(&a, &mut rng);
+            mon.check(ctx, &a, &b, &args, &mut rng);
+        }
         let (ea, eb, ec) = (crate::refcodec::encode(&a), crate::refcodec::encode(&b), crate::refcodec::encode(&c));
         let info = || format!("a={} b={} c={}", a.show(), b.show(), c.show());
         if let (Some(ab), Some(bc), Some(ac)) = (lib_contains(ctx, &ea, &eb, &info), lib_contains(ctx, &eb, &ec, &info), lib_contains(ctx, &ea, &ec, &info)) {
